@@ -55,6 +55,7 @@ class Aggregator:
     self.harness_errors = []
     self.samples = []
     self.deaths = 0
+    self.merged = {}
 
   def on_result(self, case, res):
     if res is None:
@@ -69,6 +70,8 @@ class Aggregator:
     self.traces += res.get('traces', 0)
     for h in res.get('hashes', ()):
       self.hashes.add(h)
+    for k, v in (res.get('merge') or {}).items():
+      self.merged.setdefault(k, set()).add(v)
     for k, v in res.get('counts', {}).items():
       self.counts[k] += v
     if res.get('sample') is not None and len(self.samples) < 3:
